@@ -58,6 +58,19 @@ func genLifePlan(seed uint64, thorough bool) *Plan {
 			clients = append(clients, Client{Name: "bystander", Emu: 1, Items: items})
 		}
 	}
+	if second && g.chance(2) {
+		// a client of the first instance names a connection of the second one in
+		// CLIENT KILL (by its id - the ids come from one counter - or by a filter
+		// that fits it): instances do not see each other's clients
+		kill := cmdItem("CLIENT", "KILL", "ID", "$id:1")
+		switch g.r.IntN(4) {
+		case 0:
+			kill = cmdItem("CLIENT", "KILL", "ID", "$id:1", "SKIPME", "no")
+		case 1:
+			kill = cmdItem("CLIENT", "KILL", "LADDR", ":7001")
+		}
+		clients = append(clients, Client{Name: "killer", Items: []Item{{Op: "barrier", N: 1}, cmdItem("PING"), kill, cmdItem("PING")}})
+	}
 	bar := int64(1)
 	for cy := 0; cy < cycles; cy++ {
 		// victims of this generation, each in a different state when termination comes
@@ -242,6 +255,14 @@ func historyTail(w *World, n int) string {
 func (c *lifeChecker) Final(w *World) *Violation {
 	bad := func(fp, format string, a ...any) *Violation {
 		return &Violation{Oracle: "lifecycle", Step: w.step, Fp: "life:" + fp, Msg: fmt.Sprintf(format, a...) + "\n" + historyTail(w, 30)}
+	}
+	for _, cl := range w.clients {
+		if cl.conn == nil || cl.cliClosed || cl.connInst == nil || !cl.connInst.closed {
+			continue
+		}
+		if _, srvClosed, _, _, _ := cl.conn.state(); !srvClosed {
+			return bad("connection-left-open", "client %d (%s): its connection was made before the termination of its emulator returned and is still open on the server side at the end of the run (neither served nor closed)", cl.idx, cl.plan.Name)
+		}
 	}
 	if w.lateCmd != "" {
 		return bad("command-runs-after-termination", "a command of a connected client was still executing after RequestTermination + WaitForTermination (or Close) had returned: %s", w.lateCmd)
